@@ -232,6 +232,7 @@ inductive Res (H : Type) where
   | mismatch      -- "proof node hash mismatch"
   | keyLen        -- legacy: "key length less than current position"
   | earlyValue    -- trie2 (repaired variant only): value node before the key is consumed
+  | badKey        -- key felt ≥ 2^height (repaired variant only)
   | fuel          -- the model's iteration bound was hit
   deriving Repr, DecidableEq
 
@@ -257,15 +258,18 @@ structure Cfg where
   on the node as given, so that an embedded child is stepped over: with a cached flag the walk jumps to
   that hash, without one the SAME node is entered again with the key already shortened -/
   walkCollapsed : Bool
+  /-- both: a key felt ≥ 2^height is refused; `false` = `SetFelt(height, key)` silently keeps the low
+  `height` bits, so the felt `k + 2^height` is verified as the key `k` -/
+  checkKey : Bool
   deriving Repr, DecidableEq
 
 /-- the code at the commit the work started from (0308209): regression witnesses only -/
-def Cfg.asIs : Cfg := ⟨true, true, false, false⟩
+def Cfg.asIs : Cfg := ⟨true, true, false, false, false⟩
 /-- /repo after aab3e5b + dbf9f09 (997852f and later): cached flags not trusted, early value rejected,
 zero root = empty trie, but the walk still uses the node as given -/
-def Cfg.at997852f : Cfg := ⟨false, false, true, false⟩
+def Cfg.at997852f : Cfg := ⟨false, false, true, false, false⟩
 /-- all repairs; also the independent verifier of the harness -/
-def Cfg.strict : Cfg := ⟨false, false, true, true⟩
+def Cfg.strict : Cfg := ⟨false, false, true, true, true⟩
 
 /-- `trie.VerifyProof` (core/trie/proof.go:144). `curPos` is a `uint8`. -/
 def verifyLAux [DecidableEq H] (A : HashAlg H) (proof : PSet H) (key : Path) :
@@ -326,6 +330,23 @@ def verify2Aux [DecidableEq H] (A : HashAlg H) (cfg : Cfg) (proof : PSet H) :
 def verify2 [DecidableEq H] (A : HashAlg H) (cfg : Cfg) (root : H) (key : Path) (proof : PSet H) :
     Res H :=
   if cfg.zeroRoot && root = A.zero then .ok A.zero else verify2Aux A cfg proof verifyFuel root key
+
+/-! ### keys as felts: `BitArray.SetFelt(height, key)` -/
+
+/-- the low `h` bits of `n`, most significant first -/
+def pathOfNat : Nat → Nat → Path
+  | 0, _ => []
+  | h + 1, n => n.testBit h :: pathOfNat h n
+
+/-- `trie.VerifyProof` on a key given as a felt (a natural number below the field prime) -/
+def verifyLFelt [DecidableEq H] (A : HashAlg H) (cfg : Cfg) (height : Nat) (root : H) (key : Nat)
+    (proof : PSet H) : Res H :=
+  if cfg.checkKey && key ≥ 2 ^ height then .badKey else verifyL A cfg root (pathOfNat height key) proof
+
+/-- `trie2.VerifyProof` on a key given as a felt -/
+def verify2Felt [DecidableEq H] (A : HashAlg H) (cfg : Cfg) (height : Nat) (root : H) (key : Nat)
+    (proof : PSet H) : Res H :=
+  if cfg.checkKey && key ≥ 2 ^ height then .badKey else verify2 A cfg root (pathOfNat height key) proof
 
 /-- strict lexicographic order on bit strings (= numeric order for equal lengths) -/
 def pathLt : Path → Path → Bool
